@@ -551,14 +551,28 @@ def call_specfn(eng, fn, args, st):
         lam = fn.tree
         names = [a.arg for a in lam.args.args]
         argk, retk = fn.sig
-        f = eng.uf('spec_' + fn.name, *([sort_of(k) for k in argk] + [sort_of(retk)]))
+        argk = [parse_kind(k) if isinstance(k, str) else k for k in argk]
+
+        def data_sort(k):
+            # array parameters of a spec function are passed by CONTENT (the pure array value), not by reference
+            if isinstance(k, tuple) and k[0] == 'arr':
+                es = R if k[2] == 'real' else (B if k[2] == 'bool' else I)
+                return z3.ArraySort(*([I] * k[1] + [es]))
+            return sort_of(k)
+        f = eng.uf('spec_' + fn.name, *([data_sort(k) for k in argk] + [sort_of(retk)]))
         key = 'axioms:' + fn.name
         revealed = eng.frame is None or fn.name in (eng.frame.contract.ghost.get('reveal') or ())
         # opaque by default: the defining equation is available only to contracts that `reveal` the function
         if key not in st.ghost and revealed:
             st.ghost[key] = True
-            bound = [z3.Const('%s_%s' % (fn.name, n), sort_of(k)) for n, k in zip(names, argk)]
-            ss = spec_state(st, {n: Val(k, b) for n, k, b in zip(names, argk, bound)}, None, {})
+            bound = [z3.Const('%s_%s' % (fn.name, n), data_sort(k)) for n, k in zip(names, argk)]
+            env = {}
+            for n, k, b in zip(names, argk, bound):
+                if isinstance(k, tuple) and k[0] == 'arr':
+                    env[n] = Val(k, None, ('valarr', [z3.Int(fresh_name('%s_dim' % n)) for _ in range(k[1])], b))
+                else:
+                    env[n] = Val(k, b)
+            ss = spec_state(st, env, None, {})
             body = eng.ev(lam.body, ss)
             bt = to_real(body) if retk == 'real' else body.t
             st.pc.append(z3.ForAll(bound, f(*bound) == bt, patterns=[f(*bound)]))
@@ -566,7 +580,12 @@ def call_specfn(eng, fn, args, st):
                 if 'derived-axioms-off' not in st.ghost:
                     st.pc.append(eval_bool(eng, ax, {}, st))
                     eng.assumed.add("derived axiom of spec function %s (proved in lemmas/): %s" % (fn.name, ax))
-        ts = [to_real(a) if k == 'real' else a.t for a, k in zip(args, argk)]
+        ts = []
+        for a, k in zip(args, argk):
+            if isinstance(k, tuple) and k[0] == 'arr':
+                ts.append(eng.arr_data(st, a))
+            else:
+                ts.append(to_real(a) if k == 'real' else a.t)
         return Val(retk, f(*ts))
     if fn.tree is not None:
         lam = fn.tree
